@@ -26,7 +26,9 @@ MANIFEST = {
             "orient_translate / orient_swap / orient_cyclic / orient_scale_pos; lineCoord_iff_segMem (point-on-segment = membership in {a + t(b-a), t in [0,1]}); "
             "ringEdge_none_sub, ringPos_boundary_sub (OnBoundary implies the point is on an edge) and ringPos_boundary_iff_partial (for a closed ring with >= 2 "
             "coordinates OnBoundary holds exactly for the points of the edges; closedness is the function's debug_assert precondition and "
-            "ringPos_open_ring_witness shows it is needed). Lemmas/SegmentSpec.lean additionally proves the rectangle and triangle kernels against their "
+            "ringPos_open_ring_witness / ringPos_boundary_iff_partial_witness show it is needed; the real code answers Outside on the witness like the model, "
+            "so it is a limit of the statement, not a defect) and ringPos_boundary_iff (every closed coordinate list, no length hypothesis: OnBoundary exactly "
+            "when the list is the single coordinate p or p lies on an edge). Lemmas/SegmentSpec.lean additionally proves the rectangle and triangle kernels against their "
             "point-set meaning (rectRect_iff, triCoord_iff_mem, triContainsCoord_iff_interior). Not proved: Inside/Outside of the winding loop against a "
             "point-set definition of the polygon interior. Correspondence: orient2d (f64, i64), "
             "point-on-segment, point-in-ring, point-in-triangle on near-degenerate inputs; the evidence counts the cases on which a naive f64 evaluation "
